@@ -54,6 +54,9 @@ def directed(rnd, quick):
                      [["if-unmodified-since", "Thu, 01 Jan 1970 00:00:00 GMT"]], [["if-range", "\"nope\""]]):
             cases.append({"kind": "range", "file": f, "hdr": rnd.choice(hdrs[:6]), "cond": cond})
             cases.append({"kind": "range", "file": f, "hdr": "", "cond": cond})
+    for f in ("f0", "f1", "f3", "big"):
+        for v in ("inm-same", "inm-weak", "inm-list", "inm-other", "im-same", "im-weak", "im-other"):
+            cases.append({"kind": "cond", "file": f, "variant": v})
     return cases
 
 
@@ -84,7 +87,8 @@ def run(rep):
     rep.cov["exhaustive"] = True
     rep.cov["rule"] = ("FilesMC: every sequence of up to 3 segment tokens over {name, canary name, hidden, '.', '..', empty, %2e%2e, ..%2f, backslash, "
                        "bad UTF-8, '*', double-encoded} and every range form over file lengths 0/1/3, enumerated by TLC; plus hostile spellings "
-                       "crossed to 3 segments on both mounts and range/conditional headers against 0/1/3/70000/200000-byte files. distinct = cases")
+                       "crossed to 3 segments on both mounts, range/conditional headers against 0/1/3/70000/200000-byte files, and If-None-Match / "
+                       "If-Match with the validator the service itself sent (same, weak form, in a list, other). distinct = cases")
     for c in cases[:2] + extra[:1]:
         rep.sample(c)
     tpath = ar.run_cases(cases + extra, "all")
